@@ -435,7 +435,8 @@ class Ctx:
               "assumptions": self.assumptions, "wall_s": round(time.time() - self.t0, 1),
               "violations": len(self.violations), "known_findings_reconfirmed": [k for k, _ in self.known_hits],
               "notes": self.notes}
-        evdir = os.environ.get("VERIF_EVIDENCE", os.path.join(VERIF, "evidence"))
+        # checks beyond the listed properties (ids X..) keep their evidence apart from evidence/<property id>.json
+        evdir = os.environ.get("VERIF_EVIDENCE", os.path.join(VERIF, "evidence" if not self.pid.startswith("X") else "evidence_extra"))
         os.makedirs(evdir, exist_ok=True)
         with open(os.path.join(evdir, self.pid + ".json"), "w") as f:
             json.dump(ev, f, indent=1, sort_keys=True)
